@@ -6,12 +6,13 @@ import (
 
 func init() {
 	register("C05", []string{"."}, runC05)
-	propExplain["C05"] = "Decides two structural necessary conditions of C05 (the overlay semantics themselves are value-level): (I1) every batch mutator that appends a record through prepareDeferredKeyRecord / prepareDeferredKeyValueRecord and hands out the deferred operation has, on every path on which the batch is indexed, assigned the index the finished record is to be inserted into (deferredOp.index) — a mutator that leaves the previous operation's index in place files the record under the wrong index or not at all, and reads through the indexed batch miss it; (K2, shared with C04) every mutator that inserts into the range-deletion / range-key index has cleared the batch's cached fragments of that kind, so iterators created or refreshed afterwards see the new range operations. Does not decide the merged view's ordering (SeqNumBatchBit), nor that uncommitted mutations never reach the DB."
+	propExplain["C05"] = "Decides two structural necessary conditions of C05 (the overlay semantics themselves are value-level): (I1) every batch mutator that appends a record through prepareDeferredKeyRecord / prepareDeferredKeyValueRecord and hands out the deferred operation has, on every path on which the batch is indexed, assigned the index the finished record is to be inserted into (deferredOp.index) — a mutator that leaves the previous operation's index in place files the record under the wrong index or not at all, and reads through the indexed batch miss it; (K2, shared with C04) every mutator that inserts into the range-deletion / range-key index has cleared the batch's cached fragments of that kind, so iterators created or refreshed afterwards see the new range operations. (S1) every absolute positioning method (SeekGE, SeekPrefixGE, SeekLT, First, Last) of the two batch iterators (batchIter, flushableBatchIter) assigns the iterator's prefix gate on every path — Next() hides keys outside a gate left behind by an earlier SeekPrefixGE, so a sibling that forgets to reset it makes the batch level drop out of the merged view after a direction change. Does not decide the merged view's ordering (SeqNumBatchBit), nor that uncommitted mutations never reach the DB."
 	propTechnique["C05"] = "SSA must-facts dataflow over the Batch mutators (index assignment on all indexed paths; cache invalidation before index insertion)"
 }
 
 func runC05(c *Ctx) {
 	runC04K2(c)
+	runC05S1(c)
 	deferredIndexF := c.Field("C05.I1", "p.DeferredBatchOp.index")
 	batchIndexF := c.Field("C05.I1", "p.batchInternal.index")
 	prep := CallTo("p.(*Batch).prepareDeferredKeyRecord", "p.(*Batch).prepareDeferredKeyValueRecord")
@@ -76,5 +77,33 @@ func runC05(c *Ctx) {
 	}
 	if n < 8 {
 		c.Unresolved("C05.I1", "fewer than 8 returns of deferred batch mutators found")
+	}
+}
+
+// runC05S1 (added after seed C05-b): sibling agreement on the prefix gate. SeekPrefixGE arms
+// i.prefix; Next() returns nil for a key outside it ("this level is exhausted for the prefix").
+// Every other absolute repositioning must disarm it. The instances (2 types x 5 methods) are the
+// methods of base.InternalIterator that position absolutely; all ten store the field today.
+func runC05S1(c *Ctx) {
+	n := 0
+	for _, typ := range []string{"batchIter", "flushableBatchIter"} {
+		f := c.Field("C05.S1", "p."+typ+".prefix")
+		if f == nil {
+			continue
+		}
+		for _, m := range []string{"SeekGE", "SeekPrefixGE", "SeekLT", "First", "Last"} {
+			fn := c.Fn("C05.S1", "p.(*"+typ+")."+m)
+			if fn == nil {
+				continue
+			}
+			fl := NewFlow(c.P).After("prefix-gate-assigned", StoreTo(f))
+			fl.MaxDepth = 2 // SeekPrefixGE positions through SeekGE
+			res := fl.Analyze(fn, emptyState())
+			c.noteFlow(fl)
+			n += c.Require("C05.S1", res, AnyReturn, "an absolute repositioning (re)assigns the prefix gate that Next() applies", []string{"prefix-gate-assigned"})
+		}
+	}
+	if n < 10 {
+		c.Unresolved("C05.S1", "fewer than 10 returns of absolute positioning methods of the batch iterators found")
 	}
 }
